@@ -44,6 +44,7 @@ ANY_SCHEMAS = [
     "schema.any(schema.dict({'a': schema.int}), schema.dict({'a': schema.str, 'b': schema.int}))",
     "schema.any(schema.list(schema.int), schema.list([schema.str, ...]))", "schema.any(schema.any(schema.int), schema.none)",
     "schema.any(schema.dict({'a': schema.int, ...: ...}), schema.none)", "schema.alias('n', schema.int)",
+    "schema.any(schema.dict({'a': schema.int, ...: ...}), schema.dict({'a': schema.int, 'b': schema.int, 'c': schema.int}))",
     "schema.alias('d', schema.dict({'a': schema.int, optional('b'): schema.str}))", "schema.alias('l', schema.list(schema.int))",
 ]
 SCALAR_VALUES = ["{...: 1}", "0", "1", "-1", "'x'", "''", "None", "True", "1.5", "b'b'", "object()", "(1,)", "{1}"]
@@ -87,6 +88,8 @@ def repr_cases():
 def classify(detail: str) -> str:
     """a coarse signature of a failure, used to key listed known findings"""
     d = detail
+    if d.startswith("v conforms to S but S % v") and "schema.any(" in d:
+        return "any-falls-back-to-an-alternative-the-value-does-not-conform-to"
     for needle, sig in (("returned a schema that cannot be used", "placeholder-kept-as-member-schema"),
                         ("AttributeError(\"'ellipsis' object has no attribute '__accept__'\")", "list-contains-fallthrough-AttributeError"),
                         ("DeclarationError", "leaks-DeclarationError"),
